@@ -61,12 +61,21 @@ def _run(pid, tier, chk, M, S, bindir, col):
         S.directed_stray(chk, col, bindir, tier)
         S.panic_kinds(chk, col, bindir, tier)
         S.closure_work(chk, col, bindir, tier)
+        S.captures_and_drop_panics(chk, col, bindir, tier)
         S.explore_handshake(chk, col, bindir, tier)
         S.drop_race(chk, col, bindir, tier)
         S.faults(chk, col, bindir, tier)
         S.discovered_faults(chk, col, bindir, tier)
         S.perturbed(chk, col, bindir, tier)
         S.big_batches(chk, col, bindir, tier)
+        if tier == "quick":
+            # the optimised build in the quick tier too: what only shows with optimisation / without
+            # debug assertions (aligned moves of owned captures, code inside debug_assert!) - the
+            # capture checks and every fault family, judged by the same rules
+            rbq = T.build(release=True)
+            S.captures_and_drop_panics(chk, col, rbq, tier, release=True, tag="-release")
+            S.faults(chk, col, rbq, tier, release=True, tag="-release")
+            S.discovered_faults(chk, col, rbq, tier, release=True, tag="-release")
         # --- B2 at algorithm level: the free-running thread lives are behaviours of the model
         M.alg_validate(chk, col, cap=250 if tier == "quick" else 3000)
         if tier != "quick":
@@ -77,6 +86,7 @@ def _run(pid, tier, chk, M, S, bindir, col):
             S.directed_stray(chk, col, rb, "quick", release=True, tag="-release")
             S.panic_kinds(chk, col, rb, "quick", release=True, tag="-release")
             S.closure_work(chk, col, rb, "quick", release=True, tag="-release")
+            S.captures_and_drop_panics(chk, col, rb, "quick", release=True, tag="-release")
             S.explore_handshake(chk, col, rb, "quick", release=True, tag="-release")
             S.drop_race(chk, col, rb, tier, release=True, tag="-release")
             S.faults(chk, col, rb, "quick", release=True, tag="-release")
